@@ -13,12 +13,14 @@ import (
 
 // Options tune the generator for a property.
 type Options struct {
-	Depth       int
-	Formats     bool // C12/C19: add format keywords
-	ReadWrite   bool // add readOnly / writeOnly on properties
-	NoNot       bool
-	StringyEnum bool // enum values only strings (C19 markers)
-	OddNames    bool // property names that need escaping in a JSON pointer ("a/b", "t~x")
+	Depth   int
+	Formats bool // C12/C19: add format keywords
+	// ExtraFormats: further format names (defined by the caller's TestMain) drawn next to StringFormats
+	ExtraFormats []string
+	ReadWrite    bool // add readOnly / writeOnly on properties
+	NoNot        bool
+	StringyEnum  bool // enum values only strings (C19 markers)
+	OddNames     bool // property names that need escaping in a JSON pointer ("a/b", "t~x")
 	// AvoidVacuous rewrites the three shapes behind the known C01 finding (not over a vacuous
 	// schema, oneOf with >= 2 vacuous members, vacuous applicator parents) when set; the number
 	// of rewrites is reported by the caller through Excluded.
@@ -31,7 +33,7 @@ var Types = []string{"boolean", "number", "integer", "string", "array", "object"
 var Patterns = []string{"^a", "b$", "^[a-c]+$", "[0-9]", "^..$", "^(ab)*$", "a|😀"}
 
 // the last four have no validator registered by default: they constrain nothing, and nothing else may change because of them
-var StringFormats = []string{"date", "date-time", "byte", "ipv4", "ipv6", "email", "password", "binary", "uuid", "hostname", "x-wrapped-ip"}
+var StringFormats = []string{"date", "date-time", "byte", "ipv4", "ipv6", "email", "password", "binary", "uuid", "hostname"}
 
 var enumPool = []any{nil, true, false, 0.0, 1.0, 2.0, 1.5, "a", "ab", "", "12", []any{}, []any{1.0}, []any{1.0, "a"}, map[string]any{}, map[string]any{"a": 1.0}}
 
@@ -160,7 +162,7 @@ func addKeyword(t *rapid.T, o Options, s map[string]any, dom string, depth int) 
 		s["pattern"] = rapid.SampledFrom(Patterns).Draw(t, "pat")
 	case "format":
 		if o.Formats {
-			s["format"] = rapid.SampledFrom(StringFormats).Draw(t, "fmt")
+			s["format"] = rapid.SampledFrom(append(append([]string{}, StringFormats...), o.ExtraFormats...)).Draw(t, "fmt")
 		}
 	case "minItems":
 		s["minItems"] = u(rapid.IntRange(1, 3).Draw(t, "mini"))
